@@ -38,7 +38,7 @@ func corpusSteps(n *Node) []Step {
 	}
 	steps := []Step{Run("add", "a"), Run("add", "d"), Run("add", "."), Run("rm", "a"), Run("commit", "-m", "m"), Run("branch", "b2"), Run("branch", "-r", "t"), Run("branch", "-d", "b"),
 		Run("switch", "b"), Run("switch", "-c", "c"), Run("reset", "--soft", "HEAD@{1}"), Run("reset", "--mixed", "HEAD@{1}"), Run("reset", "--hard", "HEAD@{1}"),
-		Run("restore", "a"), Run("restore", "--staged", "a"), Run("config", "user.name", "X Y"), Run("config", "--global", "user.name", "G"), Run("write-tree"), Write("a", fmt.Sprintf("edit %d\n", len(a.Objects)))}
+		Run("restore", "a"), Run("restore", "--staged", "a"), Run("rm", "d"), Run("restore", "d"), Run("restore", "--staged", "d"), Run("config", "user.name", "X Y"), Run("config", "--global", "user.name", "G"), Run("write-tree"), Write("a", fmt.Sprintf("edit %d\n", len(a.Objects)))}
 	if tip := a.Tip(); tip != "" {
 		steps = append(steps, Run("update-ref", "refs/heads/b", tip))
 	}
